@@ -325,3 +325,9 @@ def check_rebind(ctx, F):
                             ctx.violation("C10.rebind", site, "%s (%s)" % (site_str(F, fid), F.floc(fid)),
                                           "%s stores the address of its own member `%s` into its member `%s` but its copy constructor is defaulted: a copy's "
                                           "pointers keep pointing into the original" % (name, m2, m1), {})
+
+
+# planted positive examples (witness/canary.cpp)
+CANARY = {"check": [check_statics],
+          "expect": ["C10.no-statics|global/canary::g_counter", "C10.no-statics|global/canary::g_tls", "C10.no-statics|local/None::next_id/id"]}
+
